@@ -187,7 +187,7 @@ Theorem deep_parse d :
               rec_depth (POk doc []) = S d.
 Proof.
   unfold parse_document. change (cfg_with impl_flags impl_cfg) with impl_cfg. rewrite lex_deep.
-  set (e := {| dv := impl_flags; cx := mk_ctx (byte_len (deep_src d)) (deep_tokens d);
+  set (e := {| dv := impl_flags; cx := mk_ctx (deep_src d) (deep_tokens d);
                fuel := S (length (deep_tokens d)) |}).
   assert (Hlen : length (deep_tokens d) = 2 * d + 8).
   { unfold deep_tokens. rewrite !app_length. cbn [length pre_toks]. rewrite app_length. cbn [length].
